@@ -224,15 +224,29 @@ def run(tier, seed, ck=None, which=None):
     if p:
         o = p['obs']
         low = BVLower(r)
-        low.emit([o['flag']['n']] + o['X']['f'] + o['X0']['f'] + o['nm']['f'] + o['tobytes']['elems'] + o['Y']['f'])
-        bn, _ = ensure_vars(r, low, ['in_%d' % i for i in range(32)], 8)
+        low.emit([o['flag']['n']] + o['X']['f'] + o['X0']['f'])
         X0, X = concat_limbs(['n%d' % x for x in o['X0']['f']]), concat_limbs(['n%d' % x for x in o['X']['f']])
         pp = bvconst256(P)
         goals = [('C12.Reduce.flag', 'Reduce returns 1 iff input < p (all 2^256 inputs), else 0', '(assert (not (= n%d (ite (bvult %s %s) (_ bv1 64) (_ bv0 64)))))' % (o['flag']['n'], X0, pp)),
-                 ('C12.Reduce.value', 'Reduce leaves input mod p (one conditional subtraction: 2^256 < 2p)', '(assert (not (= %s (ite (bvult %s %s) %s (bvsub %s %s)))))' % (X, X0, pp, X0, X0, pp)),
-                 ('C12.bytesToInts', 'bytesToNonMontgomery = big-endian OS2IP as four limbs', '(assert (not (= %s %s)))' % (concat_limbs(['n%d' % x for x in o['nm']['f']]), concat_bytes_be(bn))),
-                 ('C12.intsToBytes', 'nonMontgomeryToBytes = 32-byte big-endian I2OSP', '(assert (not (= %s %s)))' % (concat_limbs(['n%d' % x for x in o['Y']['f']]), concat_bytes_be(['n%d' % x for x in o['tobytes']['elems']])))]
+                 ('C12.Reduce.value', 'Reduce leaves input mod p (one conditional subtraction: 2^256 < 2p)', '(assert (not (= %s (ite (bvult %s %s) %s (bvsub %s %s)))))' % (X, X0, pp, X0, X0, pp))]
         ck.prove_batch(low.all(), goals, timeout=60)
+    if r is not None and own:
+        # the unexported byte <-> limb helpers observed directly (their own harness file: a tree that changes their signatures keeps the
+        # end-to-end obligations on FromBytesWithReduce / FromBytesNoReduce / Bytes, which compose them)
+        try:
+            rb_ = ck.absorb(core.symx(HARNESS + ['field_bytes.go'], [{'id': 'bytes', 'harness': 'vh_bytes', 'summaries': KS}], pkg='field'))[0]
+            pb_ = one_path(rb_, 'C12.bytes')
+        except core.EngineError as e_:
+            pb_ = None
+            ck.notes.append('byte <-> limb helpers not observed directly (%s); covered through the exported parsers / serialiser' % str(e_)[:160])
+        if pb_:
+            o = pb_['obs']
+            low = BVLower(rb_)
+            low.emit(o['nm']['f'] + o['tobytes']['elems'] + o['Y']['f'])
+            bn, _ = ensure_vars(rb_, low, ['in_%d' % i for i in range(32)], 8)
+            ck.prove_batch(low.all(), [
+                ('C12.bytesToInts', 'bytesToNonMontgomery = big-endian OS2IP as four limbs', '(assert (not (= %s %s)))' % (concat_limbs(['n%d' % x for x in o['nm']['f']]), concat_bytes_be(bn))),
+                ('C12.intsToBytes', 'nonMontgomeryToBytes = 32-byte big-endian I2OSP', '(assert (not (= %s %s)))' % (concat_limbs(['n%d' % x for x in o['Y']['f']]), concat_bytes_be(['n%d' % x for x in o['tobytes']['elems']])))], timeout=60)
 
     # ---- FromBytesWithReduce ----
     r = R_.get('frombytes')
@@ -283,7 +297,15 @@ def run(tier, seed, ck=None, which=None):
         # commutative by their contracts): any of these term shapes is the reduction of a + b*2^192
         ta, tb = '({to} {A})'.format(to=mu.to, A=A), '({to} {B})'.format(to=mu.to, B=Bt)
         k1 = bvconst256(K192)
-        shapes = [spec] + ['({fa} {x} {y})'.format(fa=fa, x=x_, y=y_) for pb in ('(%s %s %s)' % (fm, tb, k1), '(%s %s %s)' % (fm, k1, tb)) for x_, y_ in ((ta, pb), (pb, ta))]
+        k2 = bvconst256(K384)
+        t0 = '({to} (_ bv0 256))'.format(to=mu.to)
+        import itertools
+        shapes = [spec]
+        for pb in ('(%s %s %s)' % (fm, tb, k1), '(%s %s %s)' % (fm, k1, tb)):
+            shapes += ['(%s %s %s)' % (fa, x_, y_) for x_, y_ in ((ta, pb), (pb, ta))]
+            for pc in ('(%s %s %s)' % (fm, t0, k2), '(%s %s %s)' % (fm, k2, t0)):
+                for x_, y_, z_ in itertools.permutations((ta, pb, pc)):
+                    shapes += ['(%s (%s %s %s) %s)' % (fa, fa, x_, y_, z_), '(%s %s (%s %s %s))' % (fa, x_, fa, y_, z_)]
         ck.prove_batch(low.all(), [('C12.HashToFieldElement.structure',
                                     'e = To(a) + To(b)*M(2^192) [+ To(0)*M(2^384)] with a,b the low/high 24-byte windows (a,b < 2^192 < p) and M(.) the Montgomery forms of 2^192, 2^384 mod p computed independently',
                                     '(assert (not (or %s)))' % ' '.join(limbs_eq(o['E']['f'], sp) for sp in shapes))], timeout=60)
